@@ -322,3 +322,5 @@ REGISTRY["C07"]["partial_clauses"] = ["float rounding",
     "(mirrorX_component) and at field level when every slot has a partner (mirrorX_field; mirrorY_field = transpose . mirrorX . transpose), dispersion mode with the "
     "measurement point at the origin; mirrored footprints (mirrored tower) by the oracle",
     "velocity similarity needs the background divided by the same factor (a non-zero background is not scaled by the flow) - stated so in the theorem"]
+REGISTRY["C20"]["theorems"] += T("Proofs.C20b", "BLDFM.C20", ["rescaled_tie_bounds", "rescaled_eq_strict_sum"])
+REGISTRY["C20"]["partial_clauses"] = [c for c in REGISTRY["C20"]["partial_clauses"] if "two-sided" not in c and "tie bound" not in c]
